@@ -613,7 +613,7 @@ func ruleR14_5(w *World, r *Report) {
 // R14.6 local and remote construction of JSON values agree on container kinds
 func ruleR14_6(w *World, r *Report) {
 	u := w.Client()
-	r.Rule("R14.6", "createJSONTypeFromReflectValue maps the Go kinds that JSON encodes as arrays (slice, array) to a JSON array and those it encodes as objects (map, struct) to a JSON object, so that the replica that builds from the Go value and the replicas that build from the decoded JSON create the same nodes", 4)
+	r.Rule("R14.6", "createJSONTypeFromReflectValue maps the kinds of a decoded JSON value - slice, map, and the interface values they hold - to a JSON array, a JSON object and a recursion on the held value; arms for array, struct and pointer, where they exist, map the same way (since R01.6 the issuing replica builds from the JSON form too, so these arms are no longer needed)", 4)
 	fd, p := u.DeclOf(pOrda, "jsonPrimitive", "createJSONTypeFromReflectValue")
 	if fd == nil {
 		r.Lost("jsonPrimitive.createJSONTypeFromReflectValue")
@@ -689,8 +689,17 @@ func ruleR14_6(w *World, r *Report) {
 			kindTo[k] = target
 		}
 	}
-	want := map[string]string{"reflect.Slice": "createJSONArray", "reflect.Array": "createJSONArray", "reflect.Map": "createJSONObject", "reflect.Struct": "createJSONObject",
-		"reflect.Ptr": "createJSONTypeFromReflectValue", "reflect.Interface": "createJSONTypeFromReflectValue"}
+	// the kinds a value in its JSON form has (R01.6; the receivers never see another): the others, where an arm for
+	// them exists, must agree as well but need not exist
+	want := map[string]string{"reflect.Slice": "createJSONArray", "reflect.Map": "createJSONObject", "reflect.Interface": "createJSONTypeFromReflectValue"}
+	optional := map[string]string{"reflect.Array": "createJSONArray", "reflect.Struct": "createJSONObject", "reflect.Ptr": "createJSONTypeFromReflectValue"}
+	for k, wv := range optional {
+		if got, has := kindTo[k]; has {
+			r.Check(got == wv, "createJSONTypeFromReflectValue/"+k, u.Pos(fd.Pos()), wv, fmt.Sprintf("a Go value of kind %s becomes %q, JSON encodes it as %s", k, got, wv))
+		} else {
+			r.OK("createJSONTypeFromReflectValue/"+k, u.Pos(fd.Pos()), "no arm: values reach this function in their JSON form (R01.6)")
+		}
+	}
 	for k, wv := range want {
 		r.Check(kindTo[k] == wv, "createJSONTypeFromReflectValue/"+k, u.Pos(fd.Pos()), wv, fmt.Sprintf("a Go value of kind %s becomes %q on the originating replica but JSON decoding turns it into %s on the others", k, kindTo[k], wv))
 	}
